@@ -32,8 +32,7 @@ theorem alpha_increase_aux (p : Params d) (alpha dTot prod : Ind d → Rat)
     0 < scarcity dTot prod f ∧
     overprod p alpha dTot prod f
       = alpha f + (p.aMax - alpha f) * scarcity dTot prod f * p.aTau := by
-  obtain ⟨ha1, ha2⟩ := ha
-  have hgap : 0 ≤ p.aMax - alpha f := by linarith
+  obtain ⟨ha1, _⟩ := ha
   unfold overprod at hinc ⊢
   have hlt : alpha f < alpha f + alphaChg p alpha dTot prod f := by
     rcases lt_max_iff.1 hinc with h1 | h1
@@ -41,17 +40,12 @@ theorem alpha_increase_aux (p : Params d) (alpha dTot prod : Ind d → Rat)
     · exact h1
   rw [max_eq_right (by linarith)]
   unfold alphaChg at hlt ⊢
-  by_cases h0 : scarcity dTot prod f = 0
-  · rw [h0, if_pos rfl, hb] at hlt
+  by_cases h0 : 0 < scarcity dTot prod f
+  · rw [if_pos h0, if_neg (not_le.2 h0), add_zero]
+    exact ⟨h0, rfl⟩
+  · rw [if_neg h0, if_pos (not_lt.1 h0), zero_add, hb] at hlt
     have : (1 - alpha f) * p.aTau ≤ 0 :=
       mul_nonpos_of_nonpos_of_nonneg (by linarith) ht0
-    linarith
-  · rw [if_neg h0, add_zero] at hlt ⊢
-    refine ⟨?_, rfl⟩
-    by_contra hneg
-    have hle : scarcity dTot prod f ≤ 0 := not_lt.1 hneg
-    have : (p.aMax - alpha f) * scarcity dTot prod f * p.aTau ≤ 0 :=
-      mul_nonpos_of_nonpos_of_nonneg (mul_nonpos_of_nonneg_of_nonpos hgap hle) ht0
     linarith
 
 theorem scarcity_nonpos_of_met (dTot prod : Ind d → Rat) (f : Ind d) (hd : 0 ≤ dTot f)
@@ -79,5 +73,17 @@ theorem ne_zero_of_scarcity_pos (dTot prod : Ind d → Rat) (f : Ind d)
   unfold scarcity at hsc
   rw [if_neg (not_not.2 h0)] at hsc
   exact lt_irrefl _ hsc
+
+theorem alphaChg_of_pos (p : Params d) (alpha dTot prod : Ind d → Rat) (f : Ind d)
+    (hsc : 0 < scarcity dTot prod f) :
+    alphaChg p alpha dTot prod f = (p.aMax - alpha f) * scarcity dTot prod f * p.aTau := by
+  unfold alphaChg
+  rw [if_pos hsc, if_neg (not_le.2 hsc), add_zero]
+
+theorem alphaChg_of_nonpos (p : Params d) (alpha dTot prod : Ind d → Rat) (f : Ind d)
+    (hsc : scarcity dTot prod f ≤ 0) :
+    alphaChg p alpha dTot prod f = (p.aBase - alpha f) * p.aTau := by
+  unfold alphaChg
+  rw [if_neg (not_lt.2 hsc), if_pos hsc, zero_add]
 
 end Boario
